@@ -22,6 +22,9 @@ def run(repo, run, tier):
     from .c07 import sentinel
     from ..imodel import IntegrateModel
     sentinel(repo, run, IntegrateModel(repo), rule_id="C09.5")
+    # the terminal event is reported: a root exactly at the end of the step (where the run then stops) passes the in-step test in both directions
+    from .c07 import in_step_test
+    in_step_test(repo, run, IntegrateModel(repo), rule_id="C09.6")
 
 
 # ------------------------------------------------------------------------------------------------
